@@ -36,3 +36,39 @@ def make(name, v=0, minimizer="iminuit", dea="nonlinear", fit=True, extra_ops=()
         if fit:
             w.apply(("fit",))
     return w
+
+
+FAMILY_TRUTH = collections.OrderedDict(
+    [
+        ("expo", [1.6, 0.22]),
+        ("powerlaw", [1.1, 0.9]),
+        ("sinus", [1.7, 0.85, 3.0]),
+        ("logistic", [8.0, 0.7, 4.2]),
+        ("peak", [3.3, 4.3, 1.3, 1.0]),
+    ]
+)
+UNC_CONFIGS = collections.OrderedDict(
+    [
+        ("y", ["y-abs"]),
+        ("xy", ["y-abs", "x-abs"]),
+        ("relm", ["y-abs", "y-rel-model"]),
+        ("xy-relm", ["y-abs", "x-abs-s", "y-rel-model"]),
+        ("cov", ["y-cov", "y-abs-rho"]),
+    ]
+)
+
+
+def make_family(model, unc, v=0, minimizer="iminuit", dea="nonlinear", fit=True, extra_ops=()):
+    """nonlinear family x uncertainty configuration (used by C06); peak keeps its constant fixed (well-posedness)"""
+    truth = FAMILY_TRUTH[model]
+    w = FitWorld("xy", "chi2", model=model, v=v, n=10, minimizer=minimizer, dea=dea, gen=(truth, 0.3))
+    ops = [("add", k, "e%d" % i) for i, k in enumerate(UNC_CONFIGS[unc])]
+    if model == "peak":
+        ops.append(("fix", "c"))
+    with warnings.catch_warnings():
+        warnings.simplefilter("ignore")
+        for op in list(ops) + list(extra_ops):
+            w.apply(tuple(op))
+        if fit:
+            w.apply(("fit",))
+    return w
